@@ -131,6 +131,7 @@ theorem stmt_main : ∀ f : Nat,
       | chain l1 l2 op2 e => exact chain_correct hE henv hc hcomp hwf hWF hinv hex
       | exprstmt e => simp [WFStmt] at hwf
       | ret e => simp [WFStmt] at hwf
+      | vcall n x a p => simp [WFStmt] at hwf
       | for_ v cnd step body =>
         simp only [execC] at hex
         simp only [WFStmt, Bool.and_eq_true] at hwf
